@@ -96,11 +96,18 @@ func (a LinV) String() string {
 // bytes). Conversions byte->rune->int keep it; arithmetic needs a singleton class.
 type SymV struct{ C int }
 
-// TapeStr is (a view of) an input string: all of tape T.
-type TapeStr struct{ T int }
+// TapeStr is a view of an input string: the suffix of tape T that starts at the
+// absolute position Off (0 = the whole input). Off only ever grows (s = s[k:]).
+type TapeStr struct {
+	T   int
+	Off int64
+}
 
-// TapeLen is len(tape T): only comparable with a cursor.
-type TapeLen struct{ T int }
+// TapeLen is len(view) = len(tape T) - Off: only comparable with a position.
+type TapeLen struct {
+	T   int
+	Off int64
+}
 
 // AbsStr is a string built by the code from symbols: an exact short sequence of
 // symbols, or only its emptiness.
@@ -159,6 +166,12 @@ type MapIterV struct {
 	Pos   int
 }
 
+// StrIterV is a range-over-string iterator (exact strings only).
+type StrIterV struct {
+	S   string
+	Pos int
+}
+
 // MapObjV is the content of a map object: exact keys in insertion order.
 type MapObjV struct {
 	K []Val
@@ -196,6 +209,8 @@ func cloneVal(v Val) Val {
 		return n
 	case *MapIterV:
 		return &MapIterV{Obj: x.Obj, Order: append([]int(nil), x.Order...), Pos: x.Pos}
+	case *StrIterV:
+		return &StrIterV{S: x.S, Pos: x.Pos}
 	case *MapObjV:
 		n := &MapObjV{}
 		for i := range x.K {
@@ -285,8 +300,14 @@ func fmtVal(v Val, ptrName func(int) string) string {
 	case SymV:
 		return fmt.Sprintf("s%d", x.C)
 	case TapeStr:
+		if x.Off != 0 {
+			return fmt.Sprintf("tape%d+%d", x.T, x.Off)
+		}
 		return fmt.Sprintf("tape%d", x.T)
 	case TapeLen:
+		if x.Off != 0 {
+			return fmt.Sprintf("len(tape%d)-%d", x.T, x.Off)
+		}
 		return fmt.Sprintf("len(tape%d)", x.T)
 	case AbsStr:
 		if x.Exact {
@@ -346,6 +367,8 @@ func fmtVal(v Val, ptrName func(int) string) string {
 		return "rvalue(" + x.T.String() + ":" + fmtVal(x.V, ptrName) + ")"
 	case *MapIterV:
 		return fmt.Sprintf("mapiter(%s,%v,%d)", ptrName(x.Obj), x.Order, x.Pos)
+	case *StrIterV:
+		return fmt.Sprintf("striter(%q,%d)", x.S, x.Pos)
 	case *MapObjV:
 		parts := make([]string, len(x.K))
 		for i := range x.K {
